@@ -939,6 +939,16 @@ def r_bfs(ctx):
                     if d.name in names:
                         front, rebind = d.name, [d]
         if not front:
+            # level = [... for v in FRONT ...] ; FRONT = level   (the level is built by a comprehension over the frontier)
+            for d in f.defs:
+                if d.node in body and d.kind == 'assign' and isinstance(d.value, (ast.ListComp, ast.GeneratorExp)):
+                    src = d.value.generators[0].iter
+                    cand = [n_.id for n_ in ast.walk(src) if isinstance(n_, ast.Name)]
+                    for c_ in cand:
+                        rb = [d2 for d2 in f.defs if d2.name == c_ and d2.node in body and d2.kind == 'assign']
+                        if rb:
+                            front, rebind = c_, rb
+        if not front:
             run.undecided('R-BFS', f, 'depth-loop#%d:frontier-rebound' % (i + 1), nd.lineno,
                           'the frontier of this level loop is not recognised')
             continue
@@ -1102,6 +1112,7 @@ def r_useless_kept(ctx):
                        "threshold (member of the saved list / of the map and not of the removed list)")
     g = ctx.p.func('dsw.graphized.remove_useless')
     n = 0
+    sites = []          # (node, kept element term, [(membership atom, polarity)])
     for nd in g.nodes:
         if not (nd.kind == 'stmt' and isinstance(nd.stmt, ast.Expr) and isinstance(nd.stmt.value, ast.Call) and
                 isinstance(nd.stmt.value.func, ast.Attribute) and nd.stmt.value.func.attr == 'append' and len(nd.loops) >= 3):
@@ -1110,8 +1121,24 @@ def r_useless_kept(ctx):
         arg = t[2][0] if t[2] else None
         if arg is None or arg[0] != 'iter':
             continue
+        sites.append((nd, arg, [(a, pol) for a, pol in ctx.conds(g, nd) if a[0] == 'cmp' and a[1] == 'in' and a[2] == arg]))
+    # comprehension form: [w for w in successors if <membership tests on w>]
+    seen_c = set()
+    for nd, s_ in ctx.all_subterms(g):
+        if s_[0] == 'comp' and s_[1] == 'list' and len(s_[3]) == 1 and s_[3][0][1] and s_[2][0] == 'iter' and \
+                s_[2][1] == s_[3][0][0] and s_ not in seen_c and nd.loops:
+            seen_c.add(s_)
+            mem = []
+            for c_ in s_[3][0][1]:
+                for a, pol in flatten_cond(c_, True):
+                    if a[0] == 'cmp' and a[1] in ('in', 'not in') and a[2] == s_[2]:
+                        mem.append((('cmp', 'in') + a[2:], pol if a[1] == 'in' else not pol))
+            if mem:
+                sites.append((nd, s_[2], mem))
+    for nd, arg, mem in sites:
         n += 1
-        pos_in = [a for a, pol in ctx.conds(g, nd) if pol and a[0] == 'cmp' and a[1] == 'in' and a[2] == arg]
+        pos_in = [a for a, pol in mem if pol]
+        neg_in = [a for a, pol in mem if not pol]
         # a positive membership in a collection of surviving keys: the saved list (appended under "not removed"), the
         # latter map itself, or its keys()
         ok = False
@@ -1121,12 +1148,12 @@ def r_useless_kept(ctx):
                 ok = True
             if c[0] == 'call' and c[1][0] == 'attr' and c[1][2] == 'keys':
                 ok = True
-        run.check(ok, 'R-KEEP', g, 'kept-successor-is-a-surviving-key#%d' % n, nd.lineno,
-                  'a kept successor is tested to be a surviving key',
-                  "remove_useless keeps successor %s without testing that it is itself a key meeting the threshold (only "
-                  "'not in the removed list' is tested): a successor that is not a key at all - a vertex without arcs - "
-                  "is kept, so the result differs from connect_coding_graph" % show(arg)[:40],
-                  inputs='latter maps naming a successor that has no key, e.g. accessor_to_latter_map(connect_valid_graph(mask))')
+        _tri(run, ok, bool(neg_in) and not pos_in, 'R-KEEP', g, 'kept-successor-is-a-surviving-key#%d' % n, nd.lineno,
+             'a kept successor is tested to be a surviving key',
+             "remove_useless keeps successor %s without testing that it is itself a key meeting the threshold (only "
+             "'not in the removed collection' is tested): a successor that is not a key at all - a vertex without arcs - "
+             "is kept, so the result differs from connect_coding_graph" % show(arg)[:40],
+             inputs='latter maps naming a successor that has no key, e.g. accessor_to_latter_map(connect_valid_graph(mask))')
     run.floor('R-KEEP', 'kept-successor appends in remove_useless', n, 1)
 
 
